@@ -36,7 +36,9 @@ TRUSTED = ['np.einsum(ijk,i->jk) is the sum over the first axis; np.tile/np.repe
            '(modelled in Model/Detector.lean)',
            'radiometry.Spectrum.sample returns the spectrum value at the requested wavelengths (C13/C15); here compared with an '
            'independent np.interp in nm to 1e-9']
-UNPROVEN = ['adc leaves the input frame untouched: sampled (frame frozen read-only and snapshotted byte-for-byte on every adc case) and '
+UNPROVEN = ['a Spectrum QE that is reused across calls after its value/wave was reassigned is sampled at its CURRENT contents (no stale state between calls): '
+            'sampled (a third of the Spectrum cases use the same object for an earlier call with other values); C10 histories cover the general clause',
+            'adc leaves the input frame untouched: sampled (frame frozen read-only and snapshotted byte-for-byte on every adc case) and '
             'tied to the regenerated effect table Gen/Effects.lean (theorem adc_has_no_write_site), not proved about NumPy',
             'output dtype equals the requested dtype: sampled (compared on every adc case); DN must be representable in the dtype',
             'a NON-flat Spectrum QE equals the vector of its samples: by the correspondence only (the model now samples the Spectrum itself with '
@@ -95,7 +97,7 @@ def gen_collect(rng):
     r = int(rng.integers(0, 10))
     if r == 0 and nw >= 2: ns = 1; two_d = bool(rng.integers(0, 2))          # one slice / 2-D image against several efficiencies (broadcast by einsum)
     elif r == 1 and nw >= 2: ns = nw + int(rng.choice([-1, 1])) if nw > 2 else nw + 1      # genuine mismatch -> ValueError
-    return {'kind': 'collect', 'nw': nw, 'ns': ns, 'shape': [R, C], 'img': _cube(rng, ns, R, C), 'wave_nm': wave, 'two_d': two_d,
+    return {'kind': 'collect', 'nw': nw, 'ns': ns, 'shape': [R, C], 'img': _cube(rng, ns, R, C), 'wave_nm': wave, 'two_d': two_d, 'reuse': bool(rng.integers(0, 3) == 0),
             'waveunit': ['nm', 'um', 'm', 'angstrom'][int(rng.integers(0, 4))], 'qe': _qe(rng, nw, wave)}
 
 def gen_bayer(rng, d=None, os_=None, pattern=None):
@@ -124,7 +126,7 @@ def gen_bayer(rng, d=None, os_=None, pattern=None):
     qg, qb = (qr, qr) if same else (good(), good())
     return {'kind': 'bayer', 'nw': nw, 'shape': [R, C], 'img': _cube(rng, nw, R, C, signed=bool(rng.integers(0, 2))), 'wave_nm': wave,
             'waveunit': ['nm', 'um'][int(rng.integers(0, 2))], 'qe_r': qr, 'qe_g': qg, 'qe_b': qb, 'd': d, 'os': os_,
-            'pattern': pattern, 'same_qe': bool(same)}
+            'pattern': pattern, 'same_qe': bool(same), 'reuse': bool(rng.integers(0, 3) == 0)}
 
 def gen_badpattern(rng):
     c = gen_bayer(rng, d=2, os_=1)
@@ -227,7 +229,7 @@ def gen_extreme(rng):
         unit = ['m', 'm', 'um', 'nm', 'angstrom'][int(rng.integers(0, 5))]
         q = {'kind': 'spectrum', 'grid_nm': grid, 'val': _rat([int(x) for x in rng.integers(2, 9, len(grid))], 8), 'unit': unit, 'flat': False}
         return {'kind': 'collect', 'nw': 5, 'ns': 5, 'shape': [R, C], 'img': _cube(rng, 5, R, C, signed=False), 'wave_nm': wave, 'two_d': False,
-                'waveunit': unit if rng.integers(0, 2) else ['m', 'nm'][int(rng.integers(0, 2))], 'qe': q, 'extreme': 'band-edge'}
+                'waveunit': unit if rng.integers(0, 2) else ['m', 'nm'][int(rng.integers(0, 2))], 'qe': q, 'extreme': 'band-edge', 'reuse': bool(rng.integers(0, 2))}
     R, C = pick_shape(rng, 4)
     gk = ['scalar', 'poly', 'pixel', 'pixelpoly'][int(rng.integers(0, 4))]
     n = 1 if gk in ('scalar', 'pixel') else 2
@@ -287,6 +289,7 @@ def nontrivial(c):
 def tags(c):
     k = c['kind']; t = [k]
     if c.get('extreme'): t.append('extreme:' + c['extreme'])
+    if k == 'collect' and c.get('reuse') and c['qe']['kind'] == 'spectrum': t.append('collect:same-Spectrum-reused-after-value-edit')
     if k == 'collect' and c.get('ns', c['nw']) != c['nw']: t.append('collect:slices!=wavelengths' + (':broadcast' if c['ns'] == 1 else ':refused'))
     if k == 'collect': t += ['qe:' + c['qe']['kind'] + (':' + c['qe']['unit'] if c['qe']['kind'] == 'spectrum' else ''), 'waveunit:' + c['waveunit']]
     if k == 'bayer':
@@ -333,13 +336,27 @@ def impl(c):
             img = _np(c['img'], (c.get('ns', c['nw']), R, C))
             if c['two_d']: img = img[0]
             snap = img.tobytes(); img.flags.writeable = False
-            out = D.collect_charge(img, _wave(c), _qe_obj(c['qe'], lentil), waveunit=c['waveunit'])
+            qe = _qe_obj(c['qe'], lentil)
+            if c.get('reuse') and c['qe']['kind'] == 'spectrum':
+                # the SAME Spectrum object is used for an earlier call with other values, then edited through its public attribute:
+                # the later call must see the current values (and be linear in them)
+                final = np.array(qe.value, copy=True)
+                qe.value = final[::-1] * 0.5 + 0.125
+                D.collect_charge(img, _wave(c), qe, waveunit=c['waveunit'])
+                qe.value = final
+            out = D.collect_charge(img, _wave(c), qe, waveunit=c['waveunit'])
             return {'shape': list(out.shape), 'out': _pairs(out), 'untouched': img.tobytes() == snap}
         if k in ('bayer', 'badpattern'):
             R, C = c['shape']
             img = _np(c['img'], (c['nw'], R, C))
             snap = img.tobytes(); img.flags.writeable = False
             args = (img, _wave(c), _qe_obj(c['qe_r'], lentil), _qe_obj(c['qe_g'], lentil), _qe_obj(c['qe_b'], lentil), c['pattern'])
+            if c.get('reuse') and c['kind'] == 'bayer' and R % (c['d'] * c['os']) == 0 and C % (c['d'] * c['os']) == 0:
+                specs = [q for q in args[2:5] if isinstance(q, lentil.radiometry.Spectrum)]
+                finals = [np.array(q.value, copy=True) for q in specs]
+                for q, f in zip(specs, finals): q.value = f[::-1] * 0.5 + 0.125
+                D.collect_charge_bayer(*args, oversample=c['os'], waveunit=c['waveunit'])
+                for q, f in zip(specs, finals): q.value = f
             flat = D.collect_charge_bayer(*args, oversample=c['os'], waveunit=c['waveunit'])
             ch = D.collect_charge_bayer(*args, oversample=c['os'], waveunit=c['waveunit'], flatten=False)
             if list(flat.shape) != [R, C]:
